@@ -65,7 +65,7 @@ class Retarget(Machine):
         "rejected_n_points", "rejected_n_dims", "rejected_between_accepted", "set_target_on_copy",
         "mirror_needed_allow_off", "mirror_needed_allow_on", "similarity_rotation_off",
         "tps_floor_matters", "gpa_checked", "gpa_not_converged", "noise_before_retarget", "pinv_retargeted",
-        "integer_dtype_first_target", "same_target_reset_after_inplace_edit", "target_is_a_pointcloud_subclass")
+        "integer_dtype_first_target", "same_target_reset_after_inplace_edit", "target_is_a_pointcloud_subclass", "rejected_same_size_other_shape")
 
     @classmethod
     def swarm(cls, rng, tier):
@@ -86,7 +86,7 @@ class Retarget(Machine):
         if r < 0.66:
             return {"op": "reset_same_target", "i": rng.randrange(64), "seed": rng.getrandbits(32), "how": rng.randrange(3)}
         if r < 0.74:
-            return {"op": "set_target_bad", "i": rng.randrange(64), "mode": rng.randrange(3)}
+            return {"op": "set_target_bad", "i": rng.randrange(64), "mode": rng.randrange(4)}
         if r < 0.80:
             return {"op": "copy", "i": rng.randrange(64), "dst": rng.randrange(64)}
         if r < 0.95:
@@ -339,8 +339,16 @@ class Retarget(Machine):
             return
         e = self.pool[op["i"] % len(self.pool)]
         n, d = e.src.shape
-        mode = op["mode"] % 3
-        if mode == 0:
+        mode = op["mode"] % 4
+        if mode == 3:
+            # a different point count AND dimensionality with the same total number of coordinates
+            d2 = 5 - d
+            if (n * d) % d2:
+                return
+            bad = gen.distinct_points(7, (n * d) // d2, d2, scale=10.0)
+            name = "n_points"
+            self.ctx.probe("rejected_same_size_other_shape")
+        elif mode == 0:
             bad = gen.general_points(5, n + 1, d)
             name = "n_points"
         elif mode == 1:
